@@ -315,6 +315,35 @@ def execute(case):
     obs['legacy_memo_visits_once'] = all(v == 1 for v in visits.values()) and set(visits) == reach
   except Exception as e:
     obs['legacy_equal'] = f'raised {type(e).__name__}'
+  # legacy all-paths API: for EVERY visited value (leaves too) each reported path leads to that
+  # value, the current path is among them, no path is reported twice
+  try:
+    lp_problems = []
+
+    def check_paths(all_paths, current_path, value):
+      paths = [tuple(p) for p in all_paths]
+      if tuple(current_path) not in paths:
+        lp_problems.append(f'current path {daglish.path_str(current_path)!r} not among the paths reported')
+      if len(set(paths)) != len(paths):
+        lp_problems.append(f'a path is reported twice at {daglish.path_str(current_path)!r}')
+      for q in paths:
+        try:
+          t = daglish.follow_path(root, q)
+        except Exception as e:
+          lp_problems.append(f'reported path {daglish.path_str(q)!r} does not resolve ({type(e).__name__})')
+          continue
+        same = t is value or (graphs.is_atom(value) and type(t) is type(value) and (t == value or t != t))
+        if not same:
+          lp_problems.append(f'reported path {daglish.path_str(q)!r} leads to another value than the one at '
+                             f'{daglish.path_str(current_path)!r}')
+      yield
+      return None
+    daglish_legacy.traverse_with_all_paths(check_paths, root)
+    obs['legacy_all_paths'] = lp_problems[:3]
+  except _Skip:
+    pass
+  except Exception as e:
+    obs['legacy_all_paths'] = [f'raised {type(e).__name__}: {e}'[:160]]
   try:
     lp = daglish_legacy.collect_paths_by_id(root, memoizable_only=True)
     obs['legacy_paths'] = sorted([enc.ids.get(i, -1), graphs.path_proto(p)] for i, ps in lp.items() for p in ps)
@@ -415,6 +444,9 @@ def oracle(case, real):
     return {'what': 'memoized traversal with a caller-supplied registry reports invalid paths'}
   if not real['rebuild_equal'] or not real['rebuild_ddict_ok']:
     return {'what': 'identity traversal does not rebuild an equal structure (types / sharing)'}
+  if real.get('legacy_all_paths'):
+    return {'what': 'legacy traverse_with_all_paths reports paths that are not the paths of the visited value',
+            'problems': real['legacy_all_paths']}
   if real.get('legacy_memo_visits_once') is False:
     return {'what': 'legacy memoized traversal does not visit every distinct mutable object exactly once'}
   if real['legacy_equal'] is not True:
